@@ -12,6 +12,8 @@ import (
 	"math"
 	"os"
 	"os/exec"
+	"path/filepath"
+	"sync"
 	"runtime"
 	"sort"
 	"strings"
@@ -79,6 +81,17 @@ func exprOf(ps []piece) string {
 	return sb.String()
 }
 
+// one call on a Heatmap, in the order cmd/heatmap.go makes them
+type hstep struct {
+	Op     string   `json:"op"` // upd (UpdateMinMax), scaler (assign Scaler), fmt (assign Formatter), table (samples + WriteTable)
+	Mn     int64    `json:"min,omitempty"`
+	Mx     int64    `json:"max,omitempty"`
+	Scaler string   `json:"scaler,omitempty"`
+	Fmt    int      `json:"formatter,omitempty"`
+	Tmpl   []piece  `json:"format_expr,omitempty"`
+	Batch  []sample `json:"batch,omitempty"`
+}
+
 type c14In struct {
 	Kind   string `json:"kind"`
 	Col    bool   `json:"colour"`
@@ -115,6 +128,10 @@ type c14In struct {
 	RowTot  bool       `json:"row_totals,omitempty"`
 	ColTot  bool       `json:"col_totals,omitempty"`
 	Batches [][]sample `json:"batches,omitempty"` // WriteTable after every batch
+
+	FixMin bool    `json:"fixed_min,omitempty"`
+	FixMax bool    `json:"fixed_max,omitempty"`
+	Steps  []hstep `json:"steps,omitempty"` // kind heatseq
 }
 
 type aggState struct {
@@ -134,6 +151,7 @@ type c14Out struct {
 	Zs        []int64    `json:"ints,omitempty"`
 	Lines     []string   `json:"lines,omitempty"`
 	States    []aggState `json:"agg_states,omitempty"` // what the renderer read (input of the model)
+	Auto      []string   `json:"automatic_range_lines,omitempty"` // kind cli: the run without --min/--max
 	Note      string     `json:"note,omitempty"`
 }
 
@@ -361,6 +379,29 @@ func runImpl(in c14In) c14Out {
 			}
 		}
 		return c14Out{Completed: true, Lines: termLines(vt, in.Col, true)}
+	case "heatseq":
+		vt := multiterm.NewVirtualTerm()
+		hm := termrenderers.NewHeatmap(vt, in.RLim, in.CLim)
+		hm.FixedMin, hm.FixedMax = in.FixMin, in.FixMax
+		agg := aggregation.NewTable("\x00")
+		for _, st := range in.Steps {
+			switch st.Op {
+			case "upd":
+				hm.UpdateMinMax(st.Mn, st.Mx)
+			case "scaler":
+				hm.Scaler = scalerOf(st.Scaler)
+			case "fmt":
+				hm.Formatter = formatterOf(c14In{Fmt: st.Fmt, Tmpl: st.Tmpl})
+			default:
+				for _, sm := range st.Batch {
+					agg.SampleItem(sm.Col, sm.Row, sm.Inc)
+				}
+				hm.WriteTable(agg, sorting.NVNameSorter, sorting.NVNameSorter)
+			}
+		}
+		return c14Out{Completed: true, Lines: termLines(vt, in.Col, true), States: statesOf(in)}
+	case "cli":
+		return runCli(in)
 	case "heat", "spark", "data":
 		vt := multiterm.NewVirtualTerm()
 		agg := aggregation.NewTable("\x00")
@@ -409,6 +450,17 @@ func runImpl(in c14In) c14Out {
 func statesOf(in c14In) []aggState {
 	agg := aggregation.NewTable("\x00")
 	var sts []aggState
+	if in.Kind == "heatseq" {
+		for _, st := range in.Steps {
+			if st.Op == "table" {
+				for _, sm := range st.Batch {
+					agg.SampleItem(sm.Col, sm.Row, sm.Inc)
+				}
+				sts = append(sts, snapshot(agg))
+			}
+		}
+		return sts
+	}
 	for _, b := range in.Batches {
 		for _, s := range b {
 			agg.SampleItem(s.Col, s.Row, s.Inc)
@@ -430,6 +482,105 @@ func kfHeader(in c14In) bool {
 		}
 	}
 	return false
+}
+
+// ---- `rare heatmap` as a process: a fixed range equal to the data's own range must draw the same
+// picture as the automatic range, for every --scale
+var rareBin string
+var rareOnce sync.Once
+var rareErr string
+
+func buildRare() {
+	repo := os.Getenv("VERIF_REPO")
+	if repo == "" {
+		repo = "/repo"
+	}
+	w := os.Getenv("VERIF_WORK")
+	if w == "" {
+		w = filepath.Join(os.TempDir(), "verifh")
+	}
+	os.MkdirAll(w, 0o755)
+	rareBin = filepath.Join(w, fmt.Sprintf("rare-c14-%d", os.Getpid()))
+	cmd := exec.Command("go", "build", "-o", rareBin, ".")
+	cmd.Dir = repo
+	cmd.Env = append(os.Environ(), "GOFLAGS=-mod=mod", "GOPROXY=off", "GOSUMDB=off", "GOTOOLCHAIN=local")
+	if out, err := cmd.CombinedOutput(); err != nil {
+		rareErr = err.Error() + ": " + string(out)
+	}
+}
+
+func rareHeatmap(in c14In, data []byte, extra ...string) ([]string, string) {
+	args := []string{}
+	if !in.Col {
+		args = append(args, "--nocolor")
+	} else {
+		args = append(args, "--color")
+	}
+	if !in.Uni {
+		args = append(args, "--nounicode")
+	}
+	args = append(args, "heatmap", "-m", `(\S+) (\S+)`, "-e", "{$ {1} {2}}", "--snapshot",
+		"--num", fmt.Sprint(in.RLim), "--cols", fmt.Sprint(in.CLim), "--scale", in.Scaler)
+	args = append(args, extra...)
+	cmd := exec.Command(rareBin, args...)
+	cmd.Stdin = bytes.NewReader(data)
+	var out, errb bytes.Buffer
+	cmd.Stdout, cmd.Stderr = &out, &errb
+	if err := cmd.Start(); err != nil {
+		return nil, err.Error()
+	}
+	done := make(chan error, 1)
+	go func() { done <- cmd.Wait() }()
+	select {
+	case err := <-done:
+		if err != nil {
+			return nil, "rare: " + err.Error() + ": " + errb.String()
+		}
+	case <-time.After(10 * time.Second):
+		cmd.Process.Kill()
+		<-done
+		return nil, "rare heatmap did not return within 10s"
+	}
+	var lines []string
+	for _, l := range strings.Split(strings.TrimRight(out.String(), "\n"), "\n") {
+		if in.Col {
+			l = stripSGR(l)
+		}
+		if strings.HasPrefix(l, "Matched: ") {
+			break // extractor summary and status line follow
+		}
+		lines = append(lines, l)
+	}
+	return lines, ""
+}
+
+func runCli(in c14In) c14Out {
+	rareOnce.Do(buildRare)
+	if rareErr != "" {
+		return c14Out{Note: "cannot build rare: " + rareErr}
+	}
+	var data bytes.Buffer
+	agg := aggregation.NewTable("\x00")
+	for _, b := range in.Batches {
+		for _, sm := range b {
+			for i := int64(0); i < sm.Inc; i++ {
+				fmt.Fprintf(&data, "%s %s\n", sm.Col, sm.Row)
+			}
+			if sm.Inc > 0 {
+				agg.SampleItem(sm.Col, sm.Row, sm.Inc)
+			}
+		}
+	}
+	mn, mx := agg.ComputeMinMax()
+	auto, note := rareHeatmap(in, data.Bytes())
+	if note != "" {
+		return c14Out{Note: note}
+	}
+	fixed, note := rareHeatmap(in, data.Bytes(), "--min", fmt.Sprint(mn), "--max", fmt.Sprint(mx))
+	if note != "" {
+		return c14Out{Note: note}
+	}
+	return c14Out{Completed: true, Lines: fixed, Auto: auto}
 }
 
 func runChild(in c14In) c14Out {
@@ -483,7 +634,7 @@ func execute(in c14In) c14Out {
 	} else {
 		o = guarded(func() c14Out { return runImpl(in) }, 5*time.Second)
 	}
-	if !o.Completed && (in.Kind == "heat" || in.Kind == "spark" || in.Kind == "data") {
+	if !o.Completed && (in.Kind == "heat" || in.Kind == "spark" || in.Kind == "data" || in.Kind == "heatseq") {
 		o.States = statesOf(in)
 	}
 	return o
@@ -599,7 +750,10 @@ func mapperTerm(name string, xs []int64, ranges [][2]int64, withKeys bool) strin
 	return "(MTab [" + strings.Join(tb, ";") + "] [" + strings.Join(kt, ";") + "])"
 }
 
-func fspecTerm(in c14In) string {
+func fspecTerm(in c14In) string { return fspecTerm2(in.Fmt, in.Tmpl) }
+
+func fspecTerm2(fk int, tmpl []piece) string {
+	in := c14In{Fmt: fk, Tmpl: tmpl}
 	switch in.Fmt {
 	case 0:
 		return "FPass"
@@ -647,6 +801,42 @@ func inputTerm(in c14In, o c14Out) string {
 		return fmt.Sprintf("IHeatC %s %s %s", B(in.Col), B(in.Uni), DYL(in.Us))
 	case "sparkc":
 		return fmt.Sprintf("ISparkC %s %s", B(in.Uni), DYL(in.Us))
+	case "cli":
+		return "ICliSame " + RL_(o.Auto)
+	case "heatseq":
+		scaler, fk := "linear", 1
+		var tmpl []piece
+		cmn, cmx := int64(0), int64(1)
+		ti := 0
+		var ops []string
+		for _, st := range in.Steps {
+			switch st.Op {
+			case "scaler":
+				scaler = st.Scaler
+			case "fmt":
+				fk, tmpl = st.Fmt, st.Tmpl
+			case "upd":
+				ops = append(ops, fmt.Sprintf("HoUpd %s %s %s %s", mapperTerm(scaler, nil, [][2]int64{{st.Mn, st.Mx}}, true), fspecTerm2(fk, tmpl), ZZ(st.Mn), ZZ(st.Mx)))
+				cmn, cmx = st.Mn, st.Mx
+			default:
+				a := o.States[ti]
+				ti++
+				mn, mx := a.Min, a.Max
+				if in.FixMin {
+					mn = cmn
+				}
+				if in.FixMax {
+					mx = cmx
+				}
+				var xs []int64
+				for _, vs := range a.Vals {
+					xs = append(xs, vs...)
+				}
+				ops = append(ops, fmt.Sprintf("HoTab %s %s %s", mapperTerm(scaler, xs, [][2]int64{{mn, mx}}, true), fspecTerm2(fk, tmpl), aggTerm(a)))
+				cmn, cmx = mn, mx
+			}
+		}
+		return fmt.Sprintf("iHeatSeq %s %s %d %d %s %s [%s]", B(in.Col), B(in.Uni), in.RLim, in.CLim, B(in.FixMin), B(in.FixMax), strings.Join(ops, ";"))
 	case "fmt":
 		cs := make([]string, len(in.Calls))
 		for i, c := range in.Calls {
@@ -876,6 +1066,33 @@ func boundaryTags(in c14In, o c14Out) []string {
 		}
 		if in.N == 0 && in.Kind != "heatc" && in.Kind != "sparkc" {
 			t = append(t, "b:zero-length")
+		}
+	case "cli":
+		t = append(t, "b:cli-fixed-range-equals-automatic")
+	case "heatseq":
+		updSeen, scalerAfterUpd, tables := false, false, 0
+		for _, st := range in.Steps {
+			switch st.Op {
+			case "upd":
+				updSeen = true
+			case "scaler":
+				if updSeen && st.Scaler != "linear" {
+					scalerAfterUpd = true
+				}
+				if tables > 0 {
+					t = append(t, "b:scaler-changed-between-renders")
+				}
+			case "table":
+				tables++
+			}
+		}
+		if scalerAfterUpd {
+			t = append(t, "b:scaler-assigned-after-UpdateMinMax")
+		}
+		if in.FixMin && in.FixMax {
+			t = append(t, "b:both-bounds-fixed")
+		} else if in.FixMin || in.FixMax {
+			t = append(t, "b:one-bound-fixed")
 		}
 	case "fmt":
 		for i, c := range in.Calls {
@@ -1370,6 +1587,82 @@ func genHistoFrames(r *Rng) c14In {
 	return in
 }
 
+var cliTokens = []string{"a", "b", "c", "d", "e", "x1", "x2", "GET", "POST", "200", "404", "日本", "é"}
+
+// samples with counts spread over decades, so that the scales draw different pictures
+func genSpread(r *Rng, nc, nr int, toks bool) []sample {
+	var out []sample
+	for c := 0; c < nc; c++ {
+		for rw := 0; rw < nr; rw++ {
+			if r.Chance(1, 6) {
+				continue
+			}
+			col, row := fmt.Sprint("c", c), fmt.Sprint("r", rw)
+			if toks {
+				col, row = cliTokens[c%len(cliTokens)], cliTokens[(rw+5)%len(cliTokens)]
+			}
+			out = append(out, sample{Col: col, Row: row, Inc: int64(Pick(r, []int{1, 2, 5, 9, 10, 30, 99, 100, 250, 500}))})
+		}
+	}
+	if len(out) == 0 {
+		out = []sample{{Col: "c0", Row: "r0", Inc: 3}}
+	}
+	return out
+}
+
+// a Heatmap driven in cmd/heatmap.go's order (FixedMin/FixedMax, UpdateMinMax, THEN Scaler and
+// Formatter, then the renders), or with the Scaler changed between renders of the same data
+func genHeatSeq(r *Rng) c14In {
+	in := c14In{Kind: "heatseq", Col: r.Bool(), Uni: r.Bool(), RLim: r.Range(1, 6), CLim: r.Range(1, 8)}
+	data := genSpread(r, r.Range(1, 6), r.Range(1, 4), false)
+	scalerStep := func() hstep { return hstep{Op: "scaler", Scaler: Pick(r, []string{"linear", "log2", "log10", "log2", "log10"})} }
+	fmtStep := func() hstep {
+		st := hstep{Op: "fmt", Fmt: r.Intn(3)}
+		if st.Fmt == 2 {
+			st.Tmpl = genTmpl(r)
+		}
+		return st
+	}
+	if r.Chance(3, 5) {
+		// the command's order
+		switch r.Intn(6) {
+		case 0:
+			in.FixMin = true
+		case 1:
+			in.FixMax = true
+		default:
+			in.FixMin, in.FixMax = true, true
+		}
+		lo, hi := int64(Pick(r, []int{0, 1, 1, 2, 10})), int64(Pick(r, []int{100, 500, 1000, 1000, 4, 64}))
+		in.Steps = append(in.Steps, hstep{Op: "upd", Mn: lo, Mx: hi}, scalerStep(), fmtStep())
+		in.Steps = append(in.Steps, hstep{Op: "table", Batch: data})
+		if r.Bool() {
+			in.Steps = append(in.Steps, hstep{Op: "table", Batch: genSpread(r, 2, 2, false)})
+		}
+	} else {
+		// one Heatmap reused across scalers: same data, same range, another scale
+		if r.Bool() {
+			in.Steps = append(in.Steps, scalerStep())
+		}
+		in.Steps = append(in.Steps, hstep{Op: "table", Batch: data})
+		n := r.Range(1, 3)
+		for i := 0; i < n; i++ {
+			in.Steps = append(in.Steps, scalerStep())
+			if r.Chance(1, 3) {
+				in.Steps = append(in.Steps, fmtStep())
+			}
+			in.Steps = append(in.Steps, hstep{Op: "table", Batch: []sample{}})
+		}
+	}
+	return in
+}
+
+func genCli(r *Rng) c14In {
+	in := c14In{Kind: "cli", Col: r.Bool(), Uni: r.Bool(), Scaler: Pick(r, []string{"linear", "log2", "log10", "log2", "log10"}), RLim: r.Range(1, 6), CLim: r.Range(1, 8)}
+	in.Batches = [][]sample{genSpread(r, r.Range(1, 5), r.Range(1, 4), true)}
+	return in
+}
+
 func genHisto(r *Rng) c14In {
 	in := c14In{Kind: "histo", Col: r.Bool(), Uni: r.Bool(), Scaler: genScaler(r), MaxLines: r.Range(0, 6), ShowBar: r.Chance(4, 5)}
 	setFmt(r, &in)
@@ -1510,6 +1803,12 @@ func fixedCases() []c14In {
 		{Kind: "heat", Col: true, Scaler: "linear", RLim: 3, CLim: 3, Batches: [][]sample{{{Col: "", Row: "r", Inc: 1}}}},
 		{Kind: "stack", MaxVal: 15, MaxLen: 50, Vs: []int64{-5, 10, 10}},
 		{Kind: "scale", Scaler: "log10", Mn: math.MaxInt64, Mx: math.MaxInt64, Vs: []int64{math.MaxInt64}},
+		// cmd/heatmap.go's order: fixed bounds, UpdateMinMax, then the scale is assigned
+		{Kind: "heatseq", RLim: 4, CLim: 8, FixMin: true, FixMax: true, Steps: []hstep{{Op: "upd", Mn: 1, Mx: 1000}, {Op: "scaler", Scaler: "log10"}, {Op: "fmt", Fmt: 0},
+			{Op: "table", Batch: []sample{{Col: "a", Row: "r", Inc: 9}, {Col: "b", Row: "r", Inc: 10}, {Col: "c", Row: "r", Inc: 99}, {Col: "d", Row: "r", Inc: 100}, {Col: "e", Row: "r", Inc: 500}}}}},
+		{Kind: "heatseq", Col: true, Uni: true, RLim: 4, CLim: 8, Steps: []hstep{{Op: "table", Batch: []sample{{Col: "a", Row: "r", Inc: 1}, {Col: "b", Row: "r", Inc: 8}, {Col: "c", Row: "r", Inc: 64}}},
+			{Op: "scaler", Scaler: "log2"}, {Op: "table", Batch: []sample{}}}},
+		{Kind: "cli", Scaler: "log10", RLim: 4, CLim: 8, Batches: [][]sample{{{Col: "a", Row: "r", Inc: 1}, {Col: "b", Row: "r", Inc: 10}, {Col: "c", Row: "r", Inc: 99}, {Col: "d", Row: "r", Inc: 500}}}},
 		// all-equal, bucket exactly 1.0, zero limits
 		{Kind: "heat", Scaler: "linear", RLim: 0, CLim: 0, Batches: [][]sample{{{Col: "c", Row: "r", Inc: 1}}}},
 		{Kind: "heat", Scaler: "log2", Uni: true, Col: true, RLim: 5, CLim: 5, Batches: [][]sample{{{Col: "c", Row: "r", Inc: 7}, {Col: "d", Row: "r", Inc: 7}}, {{Col: "e", Row: "s", Inc: 7}}}},
@@ -1578,7 +1877,9 @@ func c14Gen(r *Rng, n int, tier string) []Case {
 			in = genHistoFrames(r)
 		case k < 69:
 			in = genFmtSeq(r)
-		case k < 77:
+		case k < 74:
+			in = genHeatSeq(r)
+		case k < 79:
 			in = genBarG(r)
 		case k < 87:
 			in = genAgg(r, "heat")
@@ -1588,6 +1889,17 @@ func c14Gen(r *Rng, n int, tier string) []Case {
 			in = genAgg(r, "data")
 		}
 		add(in)
+	}
+	// a few runs of the built `rare heatmap` (process): bounded, they cost a build and ~20 ms each
+	ncli := 5
+	if tier == "thorough" {
+		ncli = 40
+	}
+	for i := 0; i < ncli; i++ {
+		add(genCli(r))
+	}
+	if rareBin != "" {
+		os.Remove(rareBin)
 	}
 	return cases
 }
@@ -1613,7 +1925,7 @@ func main() {
 	Main(&Prop{
 		Name:   "C14",
 		Header: "From Coq Require Import List NArith ZArith QArith.\nFrom RareV Require Import Model.Render Corr.C14Case.\nImport ListNotations.\nOpen Scope Z_scope.\n",
-		Rule: "fixed boundary cases (the recorded defects; zero limits; all-equal data) followed by seeded random cases over 15 kinds: Scaler.Scale on ascending value lists for (min,max) incl. int64 extremes, degenerate and inverted ranges x {linear, log2, log10}; ScaleKeys; Bucket / LengthVal / BarWrite / HeatWrite / SparkWrite on unit values incl. 0, 1, 1-ulp, dyadic and non-dyadic fractions; BarWriteStacked; TableWriter row/footer histories; HistoWriter, BarGraph (stacked/grouped) call histories; Heatmap, Spark, DataTable.WriteTable after each of 1-3 batches of samples into a TableAggregator (0-8 rows x 0-8 columns, limits 0..n+2), x colour on/off x unicode on/off x formatter {Passthru, humanize, a generated --format expression over {0}/{val} {1}/{min} {2}/{max} and literal text}; histogram frames (UpdateTotal, then the lines top to bottom in key order: maximum last / in the middle / growing between frames) whose FINAL screen is compared; call sequences on ONE compiled --format expression (min = max, max = previous min, repeated frames); tables whose cells are all equal and non-zero. Keys: empty, long, multi-byte, with SGR sequences, with unterminated ESC. Values: zero, negative, all-equal, up to 2^50. " +
+		Rule: "fixed boundary cases (the recorded defects; zero limits; all-equal data) followed by seeded random cases over 17 kinds: Scaler.Scale on ascending value lists for (min,max) incl. int64 extremes, degenerate and inverted ranges x {linear, log2, log10}; ScaleKeys; Bucket / LengthVal / BarWrite / HeatWrite / SparkWrite on unit values incl. 0, 1, 1-ulp, dyadic and non-dyadic fractions; BarWriteStacked; TableWriter row/footer histories; HistoWriter, BarGraph (stacked/grouped) call histories; Heatmap, Spark, DataTable.WriteTable after each of 1-3 batches of samples into a TableAggregator (0-8 rows x 0-8 columns, limits 0..n+2), x colour on/off x unicode on/off x formatter {Passthru, humanize, a generated --format expression over {0}/{val} {1}/{min} {2}/{max} and literal text}; histogram frames (UpdateTotal, then the lines top to bottom in key order: maximum last / in the middle / growing between frames) whose FINAL screen is compared; call sequences on ONE compiled --format expression (min = max, max = previous min, repeated frames); tables whose cells are all equal and non-zero; one Heatmap driven in cmd/heatmap.go's call order (FixedMin/FixedMax, UpdateMinMax, THEN Scaler and Formatter assigned, then 1-2 WriteTable) or reused across scalers (same data and range rendered again after Scaler changed), every displayed cell and legend block compared with the block of the scale in force at that render; the built `rare heatmap --scale S --snapshot` run as a process with --min/--max equal to the data's own range against the run with the automatic range (same picture required). Keys: empty, long, multi-byte, with SGR sequences, with unterminated ESC. Values: zero, negative, all-equal, up to 2^50. " +
 			"distinct = distinct JSON input; non-trivial = at least one b:* boundary tag (see distribution).",
 		Gen: c14Gen,
 		Replay: func(d json.RawMessage) (Case, error) {
@@ -1630,4 +1942,7 @@ func main() {
 		},
 		Shard: 40,
 	})
+	if rareBin != "" {
+		os.Remove(rareBin)
+	}
 }
